@@ -101,7 +101,12 @@ MedComparableAll(S) == \A a, b \in S : MedCmp(a, b)
 Homogeneous(S) == Opt.extcmp \/ (\A a \in S : IsIBGP(a)) \/ (\A a \in S : ~IsIBGP(a))
                   \/ (\A a, b \in S : a # b => Upto8(a, b) # 0)
 
-Decisive(S) == MedComparableAll(S) /\ Homogeneous(S)
+(* The documented pairwise preference names ONE route whenever it orders the candidate set totally.
+   That is guaranteed when MED is comparable across all candidates (the property's own clause); it also
+   holds for many sets with incomparable MEDs (any two candidates; a set in which no comparable pair
+   differs in MED; ...).  What cannot be demanded is a winner when the preference is cyclic. *)
+Transitive(S) == \A a, b, c \in S : (Cmp(a, b) = 1 /\ Cmp(b, c) = 1) => Cmp(a, c) = 1
+Decisive(S) == Homogeneous(S) /\ (MedComparableAll(S) \/ Transitive(S))
 
 Winners(S) == {a \in S : \A b \in S \ {a} : Cmp(a, b) = 1}
 HasBest(S) == Cardinality(Winners(S)) = 1
